@@ -78,6 +78,31 @@ CHECKS = {
         note="Trusted: as C18. Does not decide field-value equality of parse(write(parse(x))) (value-level); length consistency "
              "(len() vs write_to) is checked under C04-R1.",
         ref="DESIGN.md section 4 C11"),
+    "C16": dict(
+        technique="field-origin analysis on extracted result terms (into_owned) + field-set comparison of Hash/PartialEq bodies + iteration-order taint",
+        text="Every into_owned (51 functions and the record-building closures inside them) is linearised and each field / variant "
+             "payload of its result is shown to originate in the same field / payload of self, with no constant or fresh origin; "
+             "for types with a hand-written Hash or PartialEq the hashed fields are a subset of the compared fields; no Hash impl "
+             "feeds the hasher in HashSet/HashMap iteration order; Clone impls are derived. Structural for all values: an owned "
+             "copy is field-for-field the original, hence equal, hence serialises identically.",
+        note="Trusted: rustc MIR; std collection Clone/Eq/Hash impls lawful; derive(PartialEq, Hash) use one field list.",
+        ref="DESIGN.md section 4 C16"),
+    "C05": dict(
+        technique="MIR abstract interpretation: cursor post-condition and symbolic read offsets",
+        text="At every Ok return of RData::parse the numeric domain entails cursor_out = cursor_in + 10 + RDLENGTH (RDLENGTH being "
+             "the big-endian 16-bit read at +8), the typed parser receives exactly the message prefix ending there, TYPE/CLASS/TTL/"
+             "RDLENGTH and QTYPE/QCLASS are read at their fixed offsets after the name, and parse_section pushes one element per "
+             "iteration of a finite 0..count loop. Decides the framing clause for all messages.",
+        note=TB + " Does not decide equality of decoded field values with a reference decoder.",
+        ref="DESIGN.md section 4 C05"),
+    "C06": dict(
+        technique="MIR abstract interpretation with trace partitioning on the pointer-following flag + lexicographic loop measure",
+        text="On <Name as WireFormat>::parse: every pushed label has 1..=63 bytes, the expanded size at the Ok return is <= 254 + "
+             "root byte, the loop has the measure (size grows | read cursor strictly decreases) so pointers go strictly backwards "
+             "and cycles cannot succeed, every read is in bounds, and the caller cursor equals the read cursor until the first "
+             "pointer, becomes pointer+1 there, is frozen afterwards and is returned +1.",
+        note=TB + " That the label bytes equal a reference decoder's follows from R1-R6 by inspection, not mechanically.",
+        ref="DESIGN.md section 4 C06"),
 }
 
 NA = {
